@@ -115,7 +115,14 @@ func mutationsOf(rng *rand.Rand, c *zkCase, ai int, everyIndex bool) []mutation 
 	case "list":
 		els := strings.Split(s, ",")
 		idxs := []int{}
-		if everyIndex || len(els) <= 12 {
+		if everyIndex && len(els) > 40 {
+			// thorough tier on the long repeated parts: the first and last four indices and every eighth in between
+			for i := range els {
+				if i < 4 || i >= len(els)-4 || i%8 == 0 {
+					idxs = append(idxs, i)
+				}
+			}
+		} else if everyIndex || len(els) <= 12 {
 			for i := range els {
 				idxs = append(idxs, i)
 			}
